@@ -16,7 +16,7 @@ RULE = ("call lists of length 0..12 over a stateful reference object (counter, l
         "(call list, mode, serializer, server); non-trivial = list has >= 2 calls")
 ASSUMPTIONS = ["oneway-marked methods and iterator-returning methods are not batched (documented as unsupported)",
                "an exposure failure may surface at submission instead of at its position (the statement allows both)"]
-REQUIRED_REACH = ["batch_equal", "failure_at_position", "failure_at_submit", "oneway_equal", "state_compared", "reused_batchproxy_equal", "forgotten_oneway_batch_equal", "long_batches"]
+REQUIRED_REACH = ["impatient_batch_state_equal", "batch_equal", "failure_at_position", "failure_at_submit", "oneway_equal", "state_compared", "reused_batchproxy_equal", "forgotten_oneway_batch_equal", "long_batches"]
 SHARD_TIMEOUT = {"quick": 200, "thorough": 2400}
 
 
@@ -239,6 +239,62 @@ def check_forget(fx, Ref, calls, sername, rec, n):
     rec.count("state_compared")
 
 
+def check_impatient(fx, Ref, sername, rec, n, retries):
+    """a client with retries enabled (MAX_RETRIES / _pyroMaxRetries > 0) and a timeout that every single call meets but the batch as a whole
+    does not: made one by one, every call runs once; the batch, whatever the client is told in the end, has the same effect on the object"""
+    P = fx.P
+    idx, idy = "ix%d" % n, "iy%d" % n
+    X, Y = Ref(), Ref()
+    fx.daemon.register(X, idx)
+    fx.daemon.register(Y, idy)
+    timeout, nap = 0.9, 0.32
+    calls = [("inc", (1,), {}), ("slow", (nap,), {}), ("append", ("a",), {}), ("slow", (nap,), {}), ("inc", (5,), {}), ("slow", (nap,), {}), ("put", ("k", "v"), {})]
+    pay = {"impatient": True, "retries": retries, "serializer": sername, "servertype": fx.servertype}
+    rec.case(("impatient", retries, sername, fx.servertype), nontrivial=True, sample=pay)
+    dumpx = dumpy = None
+    try:
+        with fx.proxy(idy, serializer=sername, timeout=timeout, retries=retries) as py:
+            t0 = time.monotonic()
+            sres, sexc = run_sequential(P, py, calls)
+            py._pyroTimeout = 10.0
+            dumpy = py._pyroInvoke("dump", (), {})
+        if sexc is not None or dumpy["calls"] != len(calls):
+            rec.inconc("impatient client: the one-by-one run itself did not go cleanly (%r, %r calls): machine too slow for this case" % (sexc, dumpy["calls"]))
+            return
+        px = fx.proxy(idx, serializer=sername, timeout=timeout, retries=retries)
+        try:
+            bres, bexc, where, ret = run_batch(P, px, calls, False)
+        finally:
+            px._pyroRelease()
+        if bexc is not None and not isinstance(bexc, P.errors.CommunicationError):
+            rec.violation("batch-exception-differs", "impatient client (timeout %.1f s, %d retries): the batch raised %r" % (timeout, retries, bexc), pay)
+            return
+        rec.count("impatient_batches_timed_out" if bexc is not None else "impatient_batches_completed")
+        # the daemon goes on with the batch after the client has given up: wait until the object has stopped changing
+        deadline = time.monotonic() + 12.0
+        with fx.proxy(idx, serializer=sername, timeout=10.0) as pz:
+            last, stable_since = None, time.monotonic()
+            while time.monotonic() < deadline:
+                dumpx = pz._pyroInvoke("dump", (), {})
+                if not gen.deep_eq(dumpx, last):
+                    last, stable_since = dumpx, time.monotonic()
+                elif time.monotonic() - stable_since > 3 * nap + 0.6 and dumpx["calls"] >= len(calls):
+                    break
+                time.sleep(0.05)
+    except Exception as x:
+        rec.inconc("harness call failed: %r" % (x,))
+        return
+    finally:
+        fx.daemon.unregister(X)
+        fx.daemon.unregister(Y)
+    if not gen.deep_eq(dumpx, dumpy):
+        rec.violation("batch-state-differs:impatient-client", "client with timeout %.1f s and %d retries, 7 calls of which three take %.2f s each: one by one every call ran once and the object is %r; "
+                      "after the batch (client was told %r) it is %r" % (timeout, retries, nap, dumpy, bexc, dumpx), pay)
+        return
+    rec.count("impatient_batch_state_equal")
+    rec.count("state_compared")
+
+
 def alias_probe(fx, Ref, sername, rec, n):
     """a result that refers to mutable state of the object, followed in the same batch by a call that changes that state"""
     P = fx.P
@@ -395,6 +451,7 @@ def run_shard(shard, rec):
     try:
         n = 0
         alias_probe(fx, Ref, shard["serializer"], rec, 0)
+        check_impatient(fx, Ref, shard["serializer"], rec, 0, 1 + (len(shard["serializer"]) + len(shard["servertype"])) % 2)
         # a few long batches (the quantifier's N is not small: anything that treats a long batch differently - slicing, buffering - shows here)
         for fail_at in (None, 0, 3, 63, 64, 70, 129):
             if rec.should_stop(30):
@@ -442,6 +499,8 @@ def replay(payload, rec):
     try:
         if "batches" in payload:
             check_reuse(fx, Ref, [(c, o) for c, o in payload["batches"]], payload["serializer"], rec, 1)
+        elif payload.get("impatient"):
+            check_impatient(fx, Ref, payload["serializer"], rec, 1, payload["retries"])
         elif payload.get("alias_probe"):
             alias_probe(fx, Ref, payload["serializer"], rec, 1)
         elif payload.get("forget"):
